@@ -14,16 +14,21 @@ Proof.
 Qed.
 Lemma kind_eqb_eq a b : kind_eqb a b = true -> a = b.
 Proof. destruct a, b; simpl; congruence. Qed.
+Lemma base_eqb_eq a b : base_eqb a b = true -> a = b.
+Proof. destruct a as [x|], b as [y|]; simpl; try congruence. destruct x, y; simpl; congruence. Qed.
 Lemma cls_eqb_eq a b : cls_eqb a b = true -> a = b.
 Proof.
-  unfold cls_eqb. rewrite !andb_true_iff. intros [[[H1 H2] H3] H4].
-  apply str_eqb_eq in H1. apply strs_eqb_eq in H2. apply kind_eqb_eq in H3. apply Z.eqb_eq in H4.
+  unfold cls_eqb. rewrite !andb_true_iff. intros [[[[H1 H2] H3] H4] H5].
+  apply str_eqb_eq in H1. apply strs_eqb_eq in H2. apply kind_eqb_eq in H3. apply Z.eqb_eq in H4. apply base_eqb_eq in H5.
   destruct a, b; simpl in *; congruence.
 Qed.
 Lemma strs_eqb_refl a : strs_eqb a a = true.
 Proof. induction a as [|x a IH]; simpl; [reflexivity|]. now rewrite str_eqb_refl, IH. Qed.
 Lemma cls_eqb_refl c : cls_eqb c c = true.
-Proof. unfold cls_eqb. rewrite str_eqb_refl, strs_eqb_refl, Z.eqb_refl. destruct (c_kind c); reflexivity. Qed.
+Proof.
+  unfold cls_eqb. rewrite str_eqb_refl, strs_eqb_refl, Z.eqb_refl.
+  destruct (c_kind c); destruct (c_base c) as [[]|]; reflexivity.
+Qed.
 
 (* ---- the world's import machinery behaves as documented (so the C19 lemmas about the translated chain apply) *)
 Lemma w_import_documented w : importer_documented str (w_import w).
@@ -105,6 +110,8 @@ Section Proofs.
   Variable usplit : cls -> list (str * jv) -> option (P * list jv).
   Variable rser : cls -> P -> list (str * jv).
   Variable rdeser : cls -> list (str * jv) -> option P.
+  Variable as_leaf : P -> jv.
+  Variable as_items : P -> list jv.
 
   (* the per-class round-trip hypotheses on user code *)
   Definition user_round_trip : Prop :=
@@ -117,7 +124,7 @@ Section Proofs.
   Hypothesis Hreg : registered_round_trip.
 
   Variable w : world.
-  Notation to_json := (to_json P ufields rser).
+  Notation to_json := (to_json P ufields rser as_leaf as_items).
   Notation from_json := (from_json P usplit rdeser w).
 
   (* what the induction carries for one value *)
@@ -126,35 +133,38 @@ Section Proofs.
   Definition ok (v : value P) : Prop := in_grammar v = true /\ Forall (fun c => cls_ok w c = true) (objects v).
 
   Lemma to_json_ser c own kids kj :
-    c_kind c = KSer -> is_local c = false -> sequence (map to_json kids) = Return kj ->
+    c_kind c = KSer -> c_base c = None -> is_local c = false -> sequence (map to_json kids) = Return kj ->
     to_json (VObj c own kids) = Return (JObj ((JSON_TYPE_NAME, JStr (full_name c)) :: ufields c own kj)).
   Proof.
-    intros Ek Hl Hkj.
+    intros Ek Hb Hl Hkj.
     assert (Hd : dispatch P (VObj c own kids) = Return TJ_CallMethod).
-    { unfold dispatch, to_json_dispatch. simpl. rewrite Ek. reflexivity. }
+    { unfold dispatch, to_json_dispatch. simpl. rewrite Hb, Ek. reflexivity. }
     simpl. rewrite Hd, (base_to_json_not_local c Hl), Hkj. reflexivity.
   Qed.
 
   Lemma to_json_ser_local c own kids :
-    c_kind c = KSer -> is_local c = true -> to_json (VObj c own kids) = RaiseJ ClassNotSerializableError.
+    c_kind c = KSer -> c_base c = None -> is_local c = true -> to_json (VObj c own kids) = RaiseJ ClassNotSerializableError.
   Proof.
-    intros Ek Hl.
+    intros Ek Hb Hl.
     assert (Hd : dispatch P (VObj c own kids) = Return TJ_CallMethod).
-    { unfold dispatch, to_json_dispatch. simpl. rewrite Ek. reflexivity. }
+    { unfold dispatch, to_json_dispatch. simpl. rewrite Hb, Ek. reflexivity. }
     simpl. rewrite Hd, (base_to_json_local c Hl). reflexivity.
   Qed.
 
   Lemma to_json_reg c own :
-    c_kind c = KReg -> to_json (VObj c own []) = Return (JObj (rser c own)).
+    c_kind c = KReg -> c_base c = None -> to_json (VObj c own []) = Return (JObj (rser c own)).
   Proof.
-    intros Ek.
+    intros Ek Hb.
     assert (Hd : dispatch P (VObj c own []) = Return (TJ_CallSer c)).
-    { unfold dispatch, to_json_dispatch. simpl. rewrite Ek. reflexivity. }
+    { unfold dispatch, to_json_dispatch. simpl. rewrite Hb, Ek. reflexivity. }
     simpl. rewrite Hd. reflexivity.
   Qed.
 
-  Lemma cls_ok_parts c : cls_ok w c = true -> is_local c = false /\ names_itself w c = true.
-  Proof. unfold cls_ok. rewrite andb_true_iff, negb_true_iff. tauto. Qed.
+  Lemma cls_ok_parts c : cls_ok w c = true -> is_local c = false /\ c_base c = None /\ names_itself w c = true.
+  Proof.
+    unfold cls_ok, no_builtin_base. rewrite !andb_true_iff, negb_true_iff. intros [[H1 H2] H3].
+    destruct (c_base c); [discriminate|]. auto.
+  Qed.
 
   Lemma ok_list l : in_grammar (VList l) = true -> Forall (fun c => cls_ok w c = true) (objects (VList l)) -> Forall ok l.
   Proof.
@@ -205,7 +215,7 @@ Section Proofs.
           apply andb_true_iff in Hg as [Hx Hl]. apply Forall_app in Hos as [Ho1 Ho2].
           constructor; [split; assumption | apply IHl; assumption]. }
         destruct (rt_list kids (Forall_impl2 (fun x => ok x -> rt x) ok rt kids (fun x HQ HR => HQ HR) IH Hok)) as [kj [Hkj Hfk]].
-        destruct (cls_ok_parts c Hc) as [Hnl Hni].
+        destruct (cls_ok_parts c Hc) as [Hnl [Hnb Hni]].
         exists (JObj ((JSON_TYPE_NAME, JStr (full_name c)) :: ufields c own kj)). split.
         * apply to_json_ser; assumption.
         * intros [|n] H; [simpl in H; lia|].
@@ -219,7 +229,7 @@ Section Proofs.
       + (* registered type *)
         destruct kids as [|k ks]; [|discriminate].
         destruct (Hreg c own Ek) as [Hrd Htag].
-        destruct (cls_ok_parts c Hc) as [Hnl Hni].
+        destruct (cls_ok_parts c Hc) as [Hnl [Hnb Hni]].
         exists (JObj (rser c own)). split.
         * apply to_json_reg; assumption.
         * intros [|n] H; [simpl in H; lia|].
@@ -229,7 +239,7 @@ Section Proofs.
 
   Theorem round_trip_ok v fuel :
     value_ok w v = true -> (value_depth v <= fuel)%nat ->
-    round_trip P ufields usplit rser rdeser w fuel v = Some (Return v).
+    round_trip P ufields usplit rser rdeser as_leaf as_items w fuel v = Some (Return v).
   Proof.
     unfold value_ok. rewrite andb_true_iff, forallb_forall. intros [Hg Ho] Hf.
     destruct (round_trip_value v (conj Hg (proj2 (Forall_forall _ _) Ho))) as [j [Hj Hr]].
@@ -242,7 +252,7 @@ Section Proofs.
     exists d, to_json (VObj c own kids) = Return (JObj d) /\ dict_get d JSON_TYPE_NAME = Some (JStr (qualified_tag c)).
   Proof.
     intros Hok. pose proof Hok as [Hg Ho]. simpl in Hg, Ho. inversion Ho as [|c0 os Hc Hos]; subst.
-    destruct (cls_ok_parts c Hc) as [Hnl Hni].
+    destruct (cls_ok_parts c Hc) as [Hnl [Hnb Hni]].
     destruct (c_kind c) eqn:Ek; [| |discriminate].
     - assert (Hokk : Forall ok kids).
       { clear - Hg Hos. induction kids as [|x l IHl]; simpl in *; [constructor|].
@@ -262,9 +272,9 @@ Section Proofs.
 
   (* outside F: an instance of a function-local serialiser class is refused when it is serialised *)
   Lemma local_class_refused c own kids fuel :
-    c_kind c = KSer -> is_local c = true ->
-    round_trip P ufields usplit rser rdeser w fuel (VObj c own kids) = Some (RaiseJ ClassNotSerializableError).
-  Proof. intros Ek Hl. unfold round_trip. rewrite (to_json_ser_local c own kids Ek Hl). reflexivity. Qed.
+    c_kind c = KSer -> c_base c = None -> is_local c = true ->
+    round_trip P ufields usplit rser rdeser as_leaf as_items w fuel (VObj c own kids) = Some (RaiseJ ClassNotSerializableError).
+  Proof. intros Ek Hb Hl. unfold round_trip. rewrite (to_json_ser_local c own kids Ek Hb Hl). reflexivity. Qed.
 End Proofs.
 
 (* ---- the sample user code of the correspondence harness meets the hypotheses *)
@@ -285,46 +295,46 @@ Proof. reflexivity. Qed.
 
 Theorem sample_round_trip w v fuel :
   value_ok w v = true -> (value_depth v <= fuel)%nat ->
-  round_trip jv s_ufields s_usplit s_rser s_rdeser w fuel v = Some (Return v).
+  round_trip jv s_ufields s_usplit s_rser s_rdeser s_as_leaf s_as_items w fuel v = Some (Return v).
 Proof. apply round_trip_ok; [exact sample_user_round_trip | exact sample_registered_round_trip]. Qed.
 
 (* ---- regression examples for the former finding C18-a (fixed by 70c605d): a serialiser class nested in another class *)
 Definition S_MOD : str := [109].                                  (* module "m" *)
-Definition c_outer : cls := {| c_mod := S_MOD; c_qual := [[79]]; c_kind := KPlain; c_id := 1 |}.            (* m.O *)
-Definition c_inner : cls := {| c_mod := S_MOD; c_qual := [[79]; [73]]; c_kind := KSer; c_id := 2 |}.       (* m.O.I *)
-Definition c_shadow : cls := {| c_mod := S_MOD; c_qual := [[73]]; c_kind := KSer; c_id := 4 |}.            (* m.I *)
+Definition c_outer : cls := {| c_mod := S_MOD; c_qual := [[79]]; c_kind := KPlain; c_id := 1; c_base := None |}.            (* m.O *)
+Definition c_inner : cls := {| c_mod := S_MOD; c_qual := [[79]; [73]]; c_kind := KSer; c_id := 2; c_base := None |}.       (* m.O.I *)
+Definition c_shadow : cls := {| c_mod := S_MOD; c_qual := [[73]]; c_kind := KSer; c_id := 4; c_base := None |}.            (* m.I *)
 Definition v_inner : value jv := VObj c_inner (JInt 3) [].
 
 Lemma nested_class_round_trips :
   value_ok [c_outer; c_inner] v_inner = true /\
-  round_trip jv s_ufields s_usplit s_rser s_rdeser [c_outer; c_inner] 5 v_inner = Some (Return v_inner).
+  round_trip jv s_ufields s_usplit s_rser s_rdeser s_as_leaf s_as_items [c_outer; c_inner] 5 v_inner = Some (Return v_inner).
 Proof. split; vm_compute; reflexivity. Qed.
 
 Lemma nested_class_not_shadowed :
   value_ok [c_outer; c_inner; c_shadow] v_inner = true /\
-  round_trip jv s_ufields s_usplit s_rser s_rdeser [c_outer; c_inner; c_shadow] 5 v_inner = Some (Return v_inner).
+  round_trip jv s_ufields s_usplit s_rser s_rdeser s_as_leaf s_as_items [c_outer; c_inner; c_shadow] 5 v_inner = Some (Return v_inner).
 Proof. split; vm_compute; reflexivity. Qed.
 
 Lemma nested_class_tag_qualified :
-  exists d, to_json jv s_ufields s_rser v_inner = Return (JObj d) /\
+  exists d, to_json jv s_ufields s_rser s_as_leaf s_as_items v_inner = Return (JObj d) /\
             dict_get d JSON_TYPE_NAME = Some (JStr [109; 46; 79; 46; 73]) /\ qualified_tag c_inner = [109; 46; 79; 46; 73].
 Proof. eexists. split; [vm_compute; reflexivity|]. split; reflexivity. Qed.
 
 (* ---- outside F: a serialiser class defined inside a function (qualified name "f.<locals>.L") -- known finding C18-b *)
 Definition c_local : cls :=
-  {| c_mod := S_MOD; c_qual := [[102]; [60; 108; 111; 99; 97; 108; 115; 62]; [76]]; c_kind := KSer; c_id := 6 |}.
+  {| c_mod := S_MOD; c_qual := [[102]; [60; 108; 111; 99; 97; 108; 115; 62]; [76]]; c_kind := KSer; c_id := 6; c_base := None |}.
 Definition v_local : value jv := VObj c_local (JInt 3) [].
 Lemma local_class_not_serializable :
   in_grammar v_local = true /\
-  round_trip jv s_ufields s_usplit s_rser s_rdeser [c_local] 5 v_local = Some (RaiseJ ClassNotSerializableError).
+  round_trip jv s_ufields s_usplit s_rser s_rdeser s_as_leaf s_as_items [c_local] 5 v_local = Some (RaiseJ ClassNotSerializableError).
 Proof. split; vm_compute; reflexivity. Qed.
 
 (* non-vacuity material: a world with a subclass chain in a dotted module, a nested class and a registered type *)
 Definition S_PKG : str := [112; 46; 113].                          (* module "p.q" *)
-Definition c_a : cls := {| c_mod := S_PKG; c_qual := [[65]]; c_kind := KSer; c_id := 10 |}.
-Definition c_b : cls := {| c_mod := S_PKG; c_qual := [[66]]; c_kind := KSer; c_id := 11 |}.
-Definition c_n : cls := {| c_mod := S_PKG; c_qual := [[65]; [78]]; c_kind := KSer; c_id := 13 |}.       (* p.q.A.N *)
-Definition c_u : cls := {| c_mod := [117]; c_qual := [[85]]; c_kind := KReg; c_id := 12 |}.
+Definition c_a : cls := {| c_mod := S_PKG; c_qual := [[65]]; c_kind := KSer; c_id := 10; c_base := None |}.
+Definition c_b : cls := {| c_mod := S_PKG; c_qual := [[66]]; c_kind := KSer; c_id := 11; c_base := None |}.
+Definition c_n : cls := {| c_mod := S_PKG; c_qual := [[65]; [78]]; c_kind := KSer; c_id := 13; c_base := None |}.       (* p.q.A.N *)
+Definition c_u : cls := {| c_mod := [117]; c_qual := [[85]]; c_kind := KReg; c_id := 12; c_base := None |}.
 Definition w_sample : world := [c_a; c_b; c_n; c_u].
 Definition v_sample : value jv :=
   VList [VObj c_a (JInt 1) [VObj c_b (JStr [233]) [VList []; VNone; VObj c_n JNull []]; VObj c_u (JStr [48]) []]; VInt (2 ^ 70); VFloat 9218868437227405312; VList [VList []]].
@@ -358,7 +368,7 @@ Qed.
 
 Section SampleTags.
   Variable w : world.
-  Notation tj := (to_json jv s_ufields s_rser).
+  Notation tj := (to_json jv s_ufields s_rser s_as_leaf s_as_items).
   Definition tags_ok (v : value jv) : Prop :=
     ok jv w v -> plain_payloads v = true -> forall j, tj v = Return j -> jv_tags j = expected_tags v.
 
@@ -392,23 +402,23 @@ Section SampleTags.
       unfold expected_tags. simpl objects. rewrite map_flat_map. reflexivity.
     - (* object *)
       pose proof Hok as [Hg Ho]. simpl in Hg, Ho. inversion Ho as [|c0 os Hc Hos]; subst.
-      destruct (cls_ok_parts w c Hc) as [Hnl Hni].
+      destruct (cls_ok_parts w c Hc) as [Hnl [Hnb Hni]].
       simpl in Hp. apply andb_true_iff in Hp as [Hpo Hpk].
       pose proof (jv_plain_no_tags own Hpo) as Hown.
       unfold expected_tags. simpl objects. simpl map. rewrite map_flat_map.
       rewrite <- (full_name_qualified c).
       destruct (c_kind c) eqn:Ek; [| |discriminate].
       + pose proof (ok_kids c own kids Hok Ek) as Hokk.
-        assert (Hrt : Forall (rt jv s_ufields s_usplit s_rser s_rdeser w) kids).
+        assert (Hrt : Forall (rt jv s_ufields s_usplit s_rser s_rdeser s_as_leaf s_as_items w) kids).
         { eapply Forall_impl; [|exact Hokk].
-          apply (round_trip_value jv s_ufields s_usplit s_rser s_rdeser sample_user_round_trip sample_registered_round_trip w). }
-        destruct (rt_list jv s_ufields s_usplit s_rser s_rdeser w kids Hrt) as [kj [Es _]].
-        rewrite (to_json_ser jv s_ufields s_rser c own kids kj Ek Hnl Es) in Hj. injection Hj as <-.
+          apply (round_trip_value jv s_ufields s_usplit s_rser s_rdeser s_as_leaf s_as_items sample_user_round_trip sample_registered_round_trip w). }
+        destruct (rt_list jv s_ufields s_usplit s_rser s_rdeser s_as_leaf s_as_items w kids Hrt) as [kj [Es _]].
+        rewrite (to_json_ser jv s_ufields s_rser s_as_leaf s_as_items c own kids kj Ek Hnb Hnl Es) in Hj. injection Hj as <-.
         pose proof (tags_list kids IH Hokk Hpk kj Es) as Hk.
         unfold s_ufields. destruct (Z.even (c_id c)); simpl; rewrite ?str_eqb_refl; simpl;
           rewrite Hown, ?app_nil_r; simpl; rewrite Hk; reflexivity.
       + destruct kids as [|k ks]; [|discriminate].
-        rewrite (to_json_reg jv s_ufields s_rser c own Ek) in Hj. injection Hj as <-.
+        rewrite (to_json_reg jv s_ufields s_rser s_as_leaf s_as_items c own Ek Hnb) in Hj. injection Hj as <-.
         unfold s_rser. simpl. rewrite ?str_eqb_refl. simpl. rewrite Hown. reflexivity.
   Qed.
 
@@ -417,7 +427,7 @@ Section SampleTags.
   Proof.
     intros Hv Hp. pose proof Hv as Hv'. unfold value_ok in Hv'. rewrite andb_true_iff, forallb_forall in Hv'.
     destruct Hv' as [Hg Ho]. assert (Hok : ok jv w v) by (split; [exact Hg | apply Forall_forall; exact Ho]).
-    destruct (round_trip_value jv s_ufields s_usplit s_rser s_rdeser sample_user_round_trip sample_registered_round_trip w v Hok)
+    destruct (round_trip_value jv s_ufields s_usplit s_rser s_rdeser s_as_leaf s_as_items sample_user_round_trip sample_registered_round_trip w v Hok)
       as [j [Hj Hr]].
     unfold model_round_trip. rewrite Hj. unfold json_text.
     rewrite (Hr (S (S (value_depth v)))) by lia.
@@ -650,9 +660,31 @@ End Fragment.
 Theorem named_classes_are_ok w c :
   unique_names w -> In c w -> module_part_ok (c_mod c) = true -> dot_free (c_qual c) -> c_qual c <> [] ->
   enclosing_classes_defined w c -> no_module_named_like_class_path w c ->
-  c_kind c <> KPlain -> is_local c = false -> cls_ok w c = true.
+  c_kind c <> KPlain -> is_local c = false -> c_base c = None -> cls_ok w c = true.
 Proof.
-  intros Hu Hin Hm Hd Hne He Hn Hk Hl.
+  intros Hu Hin Hm Hd Hne He Hn Hk Hl Hb.
   destruct (exists_last Hne) as [pre [n Hq]].
-  unfold cls_ok. rewrite Hl. simpl. eapply own_tag_resolves; eauto.
+  unfold cls_ok, no_builtin_base. rewrite Hl, Hb. simpl. eapply own_tag_resolves; eauto.
 Qed.
+
+(* ---- outside F: classes that also derive from a builtin type (finding C18-d).  The leaf / list tests of to_json come
+   before the SubclassJSONSerializer / registry tests, so such an object is handed to json as the builtin value it also is *)
+Definition c_status : cls := {| c_mod := S_MOD; c_qual := [[83]]; c_kind := KReg; c_id := 20; c_base := Some Tint |}.    (* m.S(int), registered *)
+Definition c_traj : cls := {| c_mod := S_MOD; c_qual := [[84]]; c_kind := KSer; c_id := 22; c_base := Some Tlist |}.    (* m.T(list, SubclassJSONSerializer) *)
+Definition w_base : world := [c_status; c_traj].
+Lemma builtin_base_loses_class :
+  in_grammar (VObj c_status (JInt 404) [] : value jv) = true /\
+  round_trip jv s_ufields s_usplit s_rser s_rdeser s_as_leaf s_as_items w_base 5 (VObj c_status (JInt 404) []) = Some (Return (VInt 404)) /\
+  in_grammar (VObj c_traj JNull [VInt 1; VInt 2] : value jv) = true /\
+  round_trip jv s_ufields s_usplit s_rser s_rdeser s_as_leaf s_as_items w_base 5 (VObj c_traj JNull [VInt 1; VInt 2])
+  = Some (Return (VList [VInt 1; VInt 2])).
+Proof. repeat split; vm_compute; reflexivity. Qed.
+
+(* ---- outside F: a class that is not bound under its qualified name in its module (finding C18-c): C types such as
+   types.MappingProxyType (builtins.mappingproxy), name-mangled private nested classes (Planner.__State) *)
+Definition c_unbound : cls := {| c_mod := S_MOD; c_qual := [[85]]; c_kind := KReg; c_id := 24; c_base := None |}.   (* m.U, defined but not in the world *)
+Lemma unbound_class_not_found :
+  in_grammar (VObj c_unbound (JInt 1) [] : value jv) = true /\
+  round_trip jv s_ufields s_usplit s_rser s_rdeser s_as_leaf s_as_items [c_status] 5 (VObj c_unbound (JInt 1) [])
+  = Some (RaiseJ ClassNotFoundError).
+Proof. split; vm_compute; reflexivity. Qed.
